@@ -187,11 +187,16 @@ def _reassigned(fn, v):
             t = strip(x.child('lhs'))
         elif x.k == 'UnaryOperator' and x.op in ('++', '--', 'post++', 'post--', '&'):
             t = strip(x.child('sub'))
-        elif x.k in ('CallExpr', 'CXXMemberCallExpr') :
-            for a in x.args:
-                a0 = strip(a)
-                if a0 is not None and a0.k == 'DeclRefExpr' and a0.d == v.d and '&' in (a.t or ''):
-                    return True
+        elif x.k in ('CallExpr', 'CXXMemberCallExpr', 'CXXOperatorCallExpr'):
+            # handed over by non-const reference (gx records the argument positions): the callee may write it
+            args_ = x.args
+            for idx in x.j.get('mutargs') or []:
+                if idx < len(args_):
+                    a0 = strip(args_[idx])
+                    while a0 is not None and a0.k == 'MemberExpr':
+                        a0 = strip(a0.child('base')) if a0.child('base') is not None else None
+                    if a0 is not None and a0.k == 'DeclRefExpr' and a0.d == v.d:
+                        return True
         while t is not None and t.k == 'MemberExpr':
             t = strip(t.child('base')) if t.child('base') is not None else None
         if t is not None and t.k == 'DeclRefExpr' and t.d == v.d:
@@ -289,8 +294,8 @@ def inline_temps(fn, only=None):
                             strip(a_).k == 'UnaryOperator' and strip(a_).op == '&' for a_ in x.args):
                         bad = True
                         break
-                    if any(lvalue_key(strip(a_)) in reads for a_ in x.args if '&' in (a_.t or '')):
-                        bad = True
+                    if any(idx_ < len(x.args) and lvalue_key(strip(x.args[idx_])) in reads for idx_ in (x.j.get('mutargs') or [])):
+                        bad = True          # the call receives something the initialiser reads by non-const reference
                         break
                 tgt = None
                 if x.k in ('BinaryOperator', 'CompoundAssignOperator') and x.op in ('=', '+=', '-=', '*=', '/=', '%=', '&=', '|=', '^=', '<<=', '>>='):
@@ -326,9 +331,19 @@ def inline_temps(fn, only=None):
     return changed
 
 
+_TYPE_SPELLING = __import__('re').compile(r'\b(size_t|unsigned long|unsigned long int|std::size_t|std::uint64_t)\b')
+
+
 def normalise(fn):
     if not ENABLED or fn.body is None:
         return
+    # N-TYPE: one spelling for the 64-bit unsigned integer (size_t, unsigned long and uint64_t are the same type on the LP64 targets the
+    # build is configured for; the canonical type recorded by clang is identical)
+    for n in fn.body.walk():
+        t = n.j.get('t')
+        if t and ('size_t' in t or 'unsigned long' in t) and 'unsigned long long' not in t:
+            n.j = dict(n.j)
+            n.j['t'] = _TYPE_SPELLING.sub('uint64_t', t)
     _normalise(fn)
     if not os.environ.get('GDSTK_SA_NO_TEMPS'):
         new = new_locals(fn)
@@ -395,6 +410,19 @@ def _normalise(fn):
                         else:
                             new.append((ch, role))
                     set_children(n, new)
+                    changed = True
+            # N-DOWHILE: `if (c) do B while (c);` with the same pure condition and nothing else under the if  ->  `while (c) B`
+            elif k == 'IfStmt' and n.child('else') is None and n.child('init') is None and n.child('then') is not None and \
+                    (n.child('then').k == 'DoStmt' or (n.child('then').k == 'CompoundStmt' and len([x for x in n.child('then').c if x is not None]) == 1 and [x for x in n.child('then').c if x is not None][0].k == 'DoStmt')):
+                do = n.child('then') if n.child('then').k == 'DoStmt' else [x for x in n.child('then').c if x is not None][0]
+                c1, c2 = n.child('cond'), do.child('cond')
+                if c1 is not None and c2 is not None and pure_expr(c1) and ' '.join(c1.text().split()) == ' '.join(c2.text().split()) and n.parent is not None:
+                    w = mk_node(fn, 'WhileStmt', n.l)
+                    w.j['id'] = n.id
+                    w.id = n.id
+                    fn.nodes[n.id] = w
+                    set_children(w, [(c1, 'cond'), (do.child('body'), 'body')])
+                    replace_child(n.parent, n, w)
                     changed = True
             # N-WHILE
             elif k == 'ForStmt' and n.child('init') is None and n.child('inc') is None:
@@ -802,11 +830,13 @@ def fold_consts(root, fn):
     return root
 
 
-def _structure(stmts, f, binding, at, assign):
-    """Statements of a helper whose returns sit in tail positions of if-chains -> (cloned statements in which `return e`
-    became assign(e) and the code after an `if (...) return` moved into the else branch, every path assigns?).
-    None when a return sits elsewhere (inside a loop or switch)."""
+def _structure(stmts, f, binding, at, assign, cont=()):
+    """Statements of a helper whose returns sit in tail positions of if-chains -> (cloned statements in which `return e` became
+    assign(e), every path assigns?). The code that follows an `if` containing a return (`cont`: the rest of the enclosing lists) is
+    pushed into every branch that falls through, so a path that has returned never reaches it. None when a return sits elsewhere
+    (inside a loop or switch)."""
     out = []
+    stmts = list(stmts)
     for i, s in enumerate(stmts):
         if s.k == 'ReturnStmt':
             v = s.child('value')
@@ -823,22 +853,12 @@ def _structure(stmts, f, binding, at, assign):
             continue
         if s.k != 'IfStmt' or any(r not in ('cond', 'then', 'else') for c_, r in pairs(s) if c_ is not None):
             return None
-        a = _structure(s.child('then').stmts(), f, binding, at, assign)
-        b = _structure(s.child('else').stmts(), f, binding, at, assign) if s.child('else') is not None else ([], False)
+        follow = stmts[i + 1:] + list(cont)
+        a = _structure(s.child('then').stmts(), f, binding, at, assign, follow)
+        b = _structure(s.child('else').stmts() if s.child('else') is not None else [], f, binding, at, assign, follow)
         if a is None or b is None:
             return None
         (tl, tc), (el, ec) = a, b
-        for lst, comp in ((tl, tc), (el, ec)):
-            if not comp:
-                r = _structure(stmts[i + 1:], f, binding, at, assign)
-                if r is None:
-                    return None
-                lst += r[0]
-                comp = r[1]
-            if lst is tl:
-                tc = comp
-            else:
-                ec = comp
         n = mk_node(f, 'IfStmt', at.l, cfgat=at.id)
         kids = [(_subst_clone_folded(s.child('cond'), f, binding, at), 'cond')]
         for lst, role in ((tl, 'then'), (el, 'else')):
@@ -850,10 +870,25 @@ def _structure(stmts, f, binding, at, assign):
         set_children(n, kids)
         out.append(n)
         return out, tc and ec
+    if cont:
+        r = _structure(list(cont), f, binding, at, assign, ())
+        if r is None:
+            return None
+        return out + r[0], r[1]
     return out, False
 
 
-def _inline_structured(f, c, h, binding):
+def _branch_free_of_effects(h):
+    """A helper with several exits is put back as nested if/else only when its body calls nothing with effects on the outside
+    (streams, allocation, logging ...): the code that is put back has no CFG of its own, and the path rules (open/close pairing,
+    null checks, error-code propagation) must keep seeing such calls where they really are - they follow the helper instead."""
+    for x in h.body.walk():
+        if x.k in ('CallExpr', 'CXXMemberCallExpr', 'CXXNewExpr', 'CXXDeleteExpr') and not pure_expr(x):
+            return False
+    return True
+
+
+def _inline_structured(f, c, h, binding, prefix=()):
     """`T v = h(..);`, `x = h(..);` or `return h(..);` with a helper whose returns are structured: the body replaces the
     statement, each return becoming the initialisation / assignment / return."""
     body = [x for x in h.body.c if x is not None]
@@ -867,7 +902,7 @@ def _inline_structured(f, c, h, binding):
         out = []
         for ch, role in pairs(c.parent):
             if ch is c:
-                out += [(n_, 'x') for n_ in r[0]]
+                out += [(n_, 'x') for n_ in list(prefix) + r[0]]
             else:
                 out.append((ch, role))
         set_children(c.parent, out)
@@ -925,6 +960,11 @@ def _inline_structured(f, c, h, binding):
         # by reference do not occur elsewhere in the statement
         stmt = c
         while stmt.parent is not None and stmt.parent.k != 'CompoundStmt':
+            if stmt.parent.k == 'IfStmt' and stmt.role == 'cond' and stmt.parent.parent is not None and stmt.parent.parent.k == 'CompoundStmt':
+                if not _branch_free_of_effects(h):
+                    return False        # (a helper that closes streams / logs / allocates and reports through its result stays a call)
+                stmt = stmt.parent      # the condition of an `if` that sits in a block: the call runs once, before the branch
+                break
             if stmt.parent.k not in ('BinaryOperator', 'CompoundAssignOperator', 'UnaryOperator', 'ConditionalOperator', 'VarDecl', 'DeclStmt', 'InitListExpr', 'CXXConstructExpr',
                                      'MaterializeTemporaryExpr', 'ExprWithCleanups', 'CXXBindTemporaryExpr') + CASTS:
                 return False
@@ -935,7 +975,8 @@ def _inline_structured(f, c, h, binding):
             stmt = stmt.parent
         if stmt.parent is None or stmt is c:
             return False
-        others = [x for x in stmt.walk() if x.k in ('CallExpr', 'CXXMemberCallExpr', 'CXXOperatorCallExpr', 'CXXNewExpr', 'CXXDeleteExpr') and not any(y is x for y in c.walk())]
+        scope_ = stmt.child('cond') if stmt.k == 'IfStmt' else stmt
+        others = [x for x in scope_.walk() if x.k in ('CallExpr', 'CXXMemberCallExpr', 'CXXOperatorCallExpr', 'CXXNewExpr', 'CXXDeleteExpr') and not any(y is x for y in c.walk())]
         if any(not pure_expr(x) for x in others):
             return False            # (copy constructors of iterators / vectors are taken to be free of effects)
         inside = {x.id for x in c.walk()}
@@ -943,7 +984,7 @@ def _inline_structured(f, c, h, binding):
         for p_, a in zip(h.params, c.args):
             if '&' in (p_.get('t') or '') or '*' in (p_.get('t') or ''):
                 byref |= {x.d for x in a.walk() if x.k == 'DeclRefExpr'}
-        if any(x.k == 'DeclRefExpr' and x.d in byref and x.id not in inside for x in stmt.walk()):
+        if any(x.k == 'DeclRefExpr' and x.d in byref and x.id not in inside for x in scope_.walk()):
             return False
         ty = (h.ret or c.t or '').replace('const ', '').strip()
         if not ty or ty == 'void':
@@ -969,7 +1010,7 @@ def _inline_structured(f, c, h, binding):
         for ch, role in pairs(stmt.parent):
             if ch is stmt:
                 out.append((decl, 'x'))
-                out += [(n_, 'x') for n_ in r[0]]
+                out += [(n_, 'x') for n_ in list(prefix) + r[0]]
             out.append((ch, role))
         set_children(stmt.parent, out)
         replace_child(c.parent, c, ref())
@@ -979,7 +1020,7 @@ def _inline_structured(f, c, h, binding):
         if ch is stmt:
             if keep:
                 out.append((ch, role))
-            out += [(n_, 'x') for n_ in r[0]]
+            out += [(n_, 'x') for n_ in list(prefix) + r[0]]
         else:
             out.append((ch, role))
     set_children(stmt.parent, out)
@@ -1003,6 +1044,7 @@ def inline_new_helpers(db):
                     continue
                 h = hs[0]
                 binding = {}
+                prefix = []
                 ok = True
                 for p_, a in zip(h.params, c.args):
                     isref = '&' in (p_.get('t') or '')
@@ -1012,6 +1054,18 @@ def inline_new_helpers(db):
                         break
                     if isref or (not _param_written(h, p_['d']) and pure_expr(a0) and sum(1 for _ in a0.walk()) <= 12):
                         binding[p_['d']] = a0
+                    elif pure_expr(a0) and '*' not in (p_.get('t') or '') and '[' not in (p_.get('t') or ''):
+                        # a by-value parameter the helper assigns to (or a larger argument): a local copy initialised with the argument
+                        _clone_id[0] -= 1
+                        did = _clone_id[0]
+                        ty = (p_.get('t') or '').replace('const ', '').strip()
+                        nm = '__%s_%s%d' % (h.name, p_['n'], -did)
+                        var = mk_node(f, 'VarDecl', c.l, n=nm, d=did, dk='local', t=ty, ct=ty, cfgat=c.id)
+                        set_children(var, [(clone_node(a0, f), 'init')])
+                        dst = mk_node(f, 'DeclStmt', c.l, cfgat=c.id)
+                        set_children(dst, [(var, 'var')])
+                        prefix.append(dst)
+                        binding[p_['d']] = mk_node(f, 'DeclRefExpr', c.l, n=nm, d=did, dk='local', t=ty, ct=ty, cfgat=c.id)
                     else:
                         ok = False
                         break
@@ -1019,12 +1073,12 @@ def inline_new_helpers(db):
                     continue
                 body = [x for x in h.body.c if x is not None]
                 rets = [x for x in h.body.walk() if x.k == 'ReturnStmt']
-                if len(body) == 1 and body[0].k == 'ReturnStmt' and body[0].child('value') is not None:
+                if not prefix and len(body) == 1 and body[0].k == 'ReturnStmt' and body[0].child('value') is not None:
                     new = _subst_clone_folded(body[0].child('value'), f, binding, c)
                     replace_child(c.parent, c, new)
                     changed = True
                     done += 1
-                elif not rets and is_statement_position(c) and c.parent.k != 'CompoundStmt' and not (c.parent.k == 'BinaryOperator'):
+                elif not prefix and not rets and is_statement_position(c) and c.parent.k != 'CompoundStmt' and not (c.parent.k == 'BinaryOperator'):
                     news = [_subst_clone_folded(x, f, binding, c) for x in body]
                     comp = mk_node(f, 'CompoundStmt', c.l)
                     comp.j['cfgat'] = c.id
@@ -1032,10 +1086,10 @@ def inline_new_helpers(db):
                     replace_child(c.parent, c, comp if len(news) != 1 else news[0])
                     changed = True
                     done += 1
-                elif rets and _inline_structured(f, c, h, binding):
+                elif rets and _inline_structured(f, c, h, binding, prefix):
                     changed = True
                     done += 1
-                elif not rets and c.parent.k == 'CompoundStmt':
+                elif not prefix and not rets and c.parent.k == 'CompoundStmt':
                     news = [_subst_clone_folded(x, f, binding, c) for x in body]
                     out = []
                     for ch, role in pairs(c.parent):
